@@ -145,6 +145,15 @@ def render_def(prog, d):
         return "%s = %s\n" % (d["name"], d["target"])
     if d["k"] == "wrapper":
         return "%s = _verif_wrap(%s)\n" % (d["name"], d["target"])
+    if d["k"] == "mut":
+        # a module-level statement that updates a list / dict variable in place while the module is being executed
+        # (plug-in style registration); at most one per variable, so the final value does not depend on its position
+        tv = find(prog, d["target"])
+        if tv["vtype"] == "list":
+            return "%s.append(%r)\n" % (d["target"], d["delta"])
+        if tv["vtype"] == "tuplist":
+            return "%s[1].append(%r)\n" % (d["target"], d["delta"])
+        return "%s[%r] = %r\n" % (d["target"], "m", d["delta"])
     if d["k"] == "query":
         # a module-level statement that asks a memento function for its version while the module is still being
         # executed (as `g = f.force_local()` or a call at import time would); None under the identity decorator
@@ -186,7 +195,7 @@ def fix_order(prog, defs):
         names = [d["name"] for d in defs]
         for i, d in enumerate(defs):
             deps = ([d.get("fdef")] if d.get("fdef") else []) + list(d.get("declared") or []) if d["k"] == "fn" else \
-                ([d.get("target")] if d["k"] == "query" else [])
+                ([d.get("target")] if d["k"] in ("query", "mut") else [])
             late = [dep for dep in deps if dep in names and names.index(dep) > i]
             if late:
                 # move behind the last of the definitions it needs at definition time
@@ -228,7 +237,7 @@ def edges(prog, name, include_hidden=True):
     d = find(prog, name)
     if d["k"] in ("alias", "wrapper"):
         return [d["target"]], []
-    if d["k"] in ("var", "query"):
+    if d["k"] in ("var", "query", "mut"):
         return [], []
     cs, vs = [], []
     if d.get("fdef"):
@@ -449,7 +458,7 @@ def apply_edit(prog, edit, tag):
 # ------------------------------------------------------------------------------------------
 
 def program_strategy(max_fns=6, two_modules=True, allow_hidden=True, allow_explicit=True, allow_cluster=True,
-                     str_sets=True, allow_hidden_plain=False, allow_alias=True, explicit_f0=False, value_heavy=False, allow_fdef=False, allow_dictset=False, allow_init=False, allow_query=False, allow_tuplist=False, allow_declared=False, helper_heavy=False):
+                     str_sets=True, allow_hidden_plain=False, allow_alias=True, explicit_f0=False, value_heavy=False, allow_fdef=False, allow_dictset=False, allow_init=False, allow_query=False, allow_tuplist=False, allow_declared=False, helper_heavy=False, allow_mut=False):
     from hypothesis import strategies as st
 
     small = st.integers(0, 9)
@@ -581,6 +590,10 @@ def program_strategy(max_fns=6, two_modules=True, allow_hidden=True, allow_expli
             d["body"] = body
             defs.append(d)
         defs += extra
+        if allow_mut:
+            for vi, vd in enumerate([x for x in defs if x["k"] == "var" and x["vtype"] in ("list", "dict", "tuplist")]):
+                if draw(st.booleans()):
+                    defs.append({"k": "mut", "mod": vd["mod"], "name": "_mut%d" % vi, "target": vd["name"], "delta": draw(st.integers(10, 12))})
         if allow_query:
             for qi in range(draw(st.integers(0, 2))):
                 tgt = draw(st.sampled_from([n for n in fnames if fmem[n]]))
@@ -641,6 +654,8 @@ def features(prog):
         f.add("alias-or-wrapper")
     if any(d["k"] == "query" for d in prog["defs"]):
         f.add("version-query-at-import")
+    if any(d["k"] == "mut" for d in prog["defs"]):
+        f.add("in-place-update-at-import")
     return sorted(f)
 
 
